@@ -43,6 +43,7 @@ Let FT : list ident := map (fun kf => fd_name (snd kf)) (g_all G).
 Let TL : list ident := g_tl G.
 Let cp : bool := Nat.leb 6 lv.   (* level 6: copies of function objects, assignment only to int vars *)
 Let IV : list ident := CompileCorrect4Rel.ivs (g_all G) cp.
+Let rcn : bool := Nat.leb 8 lv.   (* level 8: nil records *)
 
 Local Notation step := (ValueVM4.step X).
 Local Notation star := (ValueVM4.star X).
@@ -58,39 +59,46 @@ Local Notation compile_items_let := (Compile4.compile_items_let FT TL).
 Local Notation compile_items_var := (Compile4.compile_items_var FT TL).
 Local Notation compile_items_expr := (Compile4.compile_items_expr FT TL).
 Local Notation compile_for := (Compile4.compile_for FT TL).
-Local Notation MS := (CompileCorrect4Rel.MS (g_all G) (x_ftab X) TL FS cp).
-Local Notation MS_fresh := (CompileCorrect4Rel.MS_fresh (g_all G) (x_ftab X) TL FS cp).
-Local Notation MS_alloc := (CompileCorrect4Rel.MS_alloc (g_all G) (x_ftab X) TL FS cp).
-Local Notation MS_alloc_gen := (CompileCorrect4Rel.MS_alloc_gen (g_all G) (x_ftab X) TL FS cp).
-Local Notation MS_assign := (CompileCorrect4Rel.MS_assign (g_all G) (x_ftab X) TL FS cp).
-Local Notation MS_payload_int := (CompileCorrect4Rel.MS_payload_int (g_all G) (x_ftab X) TL FS cp).
-Local Notation MS_payload_bool := (CompileCorrect4Rel.MS_payload_bool (g_all G) (x_ftab X) TL FS cp).
-Local Notation MS_payload_cell := (CompileCorrect4Rel.MS_payload_cell (g_all G) (x_ftab X) TL FS cp).
-Local Notation nil_cmp_mapped := (CompileCorrect4Rel.nil_cmp_mapped (g_all G) (x_ftab X) TL FS cp).
-Local Notation MS_addr_lt := (CompileCorrect4Rel.MS_addr_lt (g_all G) (x_ftab X) TL FS cp).
-Local Notation MS_vec_lt := (CompileCorrect4Rel.MS_vec_lt (g_all G) (x_ftab X) TL FS cp).
-Local Notation ms_rel := (CompileCorrect4Rel.ms_rel (g_all G) (x_ftab X) TL FS cp).
-Local Notation ms_inj := (CompileCorrect4Rel.ms_inj (g_all G) (x_ftab X) TL FS cp).
-Local Notation ms_len := (CompileCorrect4Rel.ms_len (g_all G) (x_ftab X) TL FS cp).
-Local Notation ms_fun := (CompileCorrect4Rel.ms_fun (g_all G) (x_ftab X) TL FS cp).
-Local Notation ms_fcl := (CompileCorrect4Rel.ms_fcl (g_all G) (x_ftab X) TL FS cp).
-Local Notation ms_fself := (CompileCorrect4Rel.ms_fself (g_all G) (x_ftab X) TL FS cp).
-Local Notation ms_vec := (CompileCorrect4Rel.ms_vec (g_all G) (x_ftab X) TL FS cp).
-Local Notation MS_closure := (CompileCorrect4Rel.MS_closure (g_all G) (x_ftab X) TL FS cp).
-Local Notation MS_run := (CompileCorrect4Rel.MS_run (g_all G) (x_ftab X) TL FS cp).
-Local Notation MS_copy := (CompileCorrect4Rel.MS_copy (g_all G) (x_ftab X) TL FS cp).
-Local Notation ms_cp := (CompileCorrect4Rel.ms_cp (g_all G) (x_ftab X) TL FS cp).
-Local Notation ms_nocp := (CompileCorrect4Rel.ms_nocp (g_all G) (x_ftab X) TL FS cp).
-Local Notation ms_int := (CompileCorrect4Rel.ms_int (g_all G) (x_ftab X) TL FS cp).
-Local Notation MS_addint := (CompileCorrect4Rel.MS_addint (g_all G) (x_ftab X) TL FS cp).
-Local Notation MS_newarr := (CompileCorrect4Rel.MS_newarr (g_all G) (x_ftab X) TL FS cp).
-Local Notation ms_arr := (CompileCorrect4Rel.ms_arr (g_all G) (x_ftab X) TL FS cp).
-Local Notation ms_arrmi := (CompileCorrect4Rel.ms_arrmi (g_all G) (x_ftab X) TL FS cp).
-Local Notation ms_noarr := (CompileCorrect4Rel.ms_noarr (g_all G) (x_ftab X) TL FS cp).
-Local Notation vrel_fun := (CompileCorrect4Rel.vrel_fun (g_all G) (x_ftab X) TL FS cp).
-Local Notation vrel_intv := (CompileCorrect4Rel.vrel_intv (g_all G) (x_ftab X) TL FS cp).
-Local Notation vrel_kind := (CompileCorrect4Rel.vrel_kind (g_all G) (x_ftab X) TL FS cp).
-Local Notation vrel_arr := (CompileCorrect4Rel.vrel_arr (g_all G) (x_ftab X) TL FS cp).
+Local Notation MS := (CompileCorrect4Rel.MS (g_all G) (x_ftab X) TL FS cp rcn).
+Local Notation MS_fresh := (CompileCorrect4Rel.MS_fresh (g_all G) (x_ftab X) TL FS cp rcn).
+Local Notation MS_alloc := (CompileCorrect4Rel.MS_alloc (g_all G) (x_ftab X) TL FS cp rcn).
+Local Notation MS_alloc_gen := (CompileCorrect4Rel.MS_alloc_gen (g_all G) (x_ftab X) TL FS cp rcn).
+Local Notation MS_assign := (CompileCorrect4Rel.MS_assign (g_all G) (x_ftab X) TL FS cp rcn).
+Local Notation MS_payload_int := (CompileCorrect4Rel.MS_payload_int (g_all G) (x_ftab X) TL FS cp rcn).
+Local Notation MS_payload_bool := (CompileCorrect4Rel.MS_payload_bool (g_all G) (x_ftab X) TL FS cp rcn).
+Local Notation MS_payload_cell := (CompileCorrect4Rel.MS_payload_cell (g_all G) (x_ftab X) TL FS cp rcn).
+Local Notation nil_cmp_mapped := (CompileCorrect4Rel.nil_cmp_mapped (g_all G) (x_ftab X) TL FS cp rcn).
+Local Notation MS_addr_lt := (CompileCorrect4Rel.MS_addr_lt (g_all G) (x_ftab X) TL FS cp rcn).
+Local Notation MS_vec_lt := (CompileCorrect4Rel.MS_vec_lt (g_all G) (x_ftab X) TL FS cp rcn).
+Local Notation ms_rel := (CompileCorrect4Rel.ms_rel (g_all G) (x_ftab X) TL FS cp rcn).
+Local Notation ms_inj := (CompileCorrect4Rel.ms_inj (g_all G) (x_ftab X) TL FS cp rcn).
+Local Notation ms_len := (CompileCorrect4Rel.ms_len (g_all G) (x_ftab X) TL FS cp rcn).
+Local Notation ms_fun := (CompileCorrect4Rel.ms_fun (g_all G) (x_ftab X) TL FS cp rcn).
+Local Notation ms_fcl := (CompileCorrect4Rel.ms_fcl (g_all G) (x_ftab X) TL FS cp rcn).
+Local Notation ms_fself := (CompileCorrect4Rel.ms_fself (g_all G) (x_ftab X) TL FS cp rcn).
+Local Notation ms_vec := (CompileCorrect4Rel.ms_vec (g_all G) (x_ftab X) TL FS cp rcn).
+Local Notation MS_closure := (CompileCorrect4Rel.MS_closure (g_all G) (x_ftab X) TL FS cp rcn).
+Local Notation MS_run := (CompileCorrect4Rel.MS_run (g_all G) (x_ftab X) TL FS cp rcn).
+Local Notation MS_copy := (CompileCorrect4Rel.MS_copy (g_all G) (x_ftab X) TL FS cp rcn).
+Local Notation ms_cp := (CompileCorrect4Rel.ms_cp (g_all G) (x_ftab X) TL FS cp rcn).
+Local Notation ms_nocp := (CompileCorrect4Rel.ms_nocp (g_all G) (x_ftab X) TL FS cp rcn).
+Local Notation ms_int := (CompileCorrect4Rel.ms_int (g_all G) (x_ftab X) TL FS cp rcn).
+Local Notation MS_addint := (CompileCorrect4Rel.MS_addint (g_all G) (x_ftab X) TL FS cp rcn).
+Local Notation MS_newarr := (CompileCorrect4Rel.MS_newarr (g_all G) (x_ftab X) TL FS cp rcn).
+Local Notation ms_arr := (CompileCorrect4Rel.ms_arr (g_all G) (x_ftab X) TL FS cp rcn).
+Local Notation ms_arrmi := (CompileCorrect4Rel.ms_arrmi (g_all G) (x_ftab X) TL FS cp rcn).
+Local Notation ms_noarr := (CompileCorrect4Rel.ms_noarr (g_all G) (x_ftab X) TL FS cp rcn).
+Local Notation MS_newrec := (CompileCorrect4Rel.MS_newrec (g_all G) (x_ftab X) TL FS cp rcn).
+Local Notation ms_rec := (CompileCorrect4Rel.ms_rec (g_all G) (x_ftab X) TL FS cp rcn).
+Local Notation ms_recmi := (CompileCorrect4Rel.ms_recmi (g_all G) (x_ftab X) TL FS cp rcn).
+Local Notation ms_norec := (CompileCorrect4Rel.ms_norec (g_all G) (x_ftab X) TL FS cp rcn).
+Local Notation ms_nonil := (CompileCorrect4Rel.ms_nonil (g_all G) (x_ftab X) TL FS cp rcn).
+Local Notation vrel_rec := (CompileCorrect4Rel.vrel_rec (g_all G) (x_ftab X) TL FS cp rcn).
+Local Notation vrel_nil := (CompileCorrect4Rel.vrel_nil (g_all G) (x_ftab X) TL FS cp rcn).
+Local Notation vrel_fun := (CompileCorrect4Rel.vrel_fun (g_all G) (x_ftab X) TL FS cp rcn).
+Local Notation vrel_intv := (CompileCorrect4Rel.vrel_intv (g_all G) (x_ftab X) TL FS cp rcn).
+Local Notation vrel_kind := (CompileCorrect4Rel.vrel_kind (g_all G) (x_ftab X) TL FS cp rcn).
+Local Notation vrel_arr := (CompileCorrect4Rel.vrel_arr (g_all G) (x_ftab X) TL FS cp rcn).
 Local Notation fun_addr := (CompileCorrect4Rel.fun_addr (g_all G) (x_ftab X)).
 Local Notation cell_rel_intv := (CompileCorrect4Rel.cell_rel_intv (g_all G) (x_ftab X) TL FS).
 Local Notation env_match_g := (CompileCorrect4Rel.env_match G IV).
@@ -680,7 +688,7 @@ Proof. intros L ce op a b H. destruct op; try discriminate H; reflexivity. Qed.
 Lemma case_EBin : forall k op a b, f1_binop op = true -> expr_spec k -> expr_case_at (S k) (EBin op a b).
 Proof.
   intros k op a b Hop IH env st r st' He sc HF prog L ce ip stk h o m Hc HMS Hout Hem.
-  simpl in HF.
+  cbn [Compile4.in_F] in HF. apply andb_true_iff in HF; destruct HF as [H8 HF].
   apply andb_true_iff in HF; destruct HF as [HF Fb].
   apply andb_true_iff in HF; destruct HF as [HF Fa].
   apply andb_true_iff in HF; destruct HF as [HF Hsh].
@@ -714,7 +722,16 @@ Proof.
                   ip + length (ca ++ cb ++ binop_code op))%nat) by (rewrite !app_length; lia).
   assert (Hext : ext m m2) by (eapply ext_trans; eauto).
   unfold binop_result in He.
-  rewrite (nil_cmp_mapped op _ _ _ c1 a1 c2 a2 HMS2 Hm1' Hm2) in He.
+  assert (Hnil : rcn = false \/ (op <> Eq /\ op <> Ne) \/
+            exists w, nth_error (cells st2) c2 = Some w /\ match w with CInt _ | CBool _ => True | _ => False end).
+  { destruct (Nat.leb lv 7) eqn:E7.
+    - left. unfold rcn. apply Nat.leb_le in E7. apply Nat.leb_gt. lia.
+    - cbn [orb] in H8. clear - H8 Eb HMS2 Hm2.
+      destruct op; try (right; left; split; discriminate); right; right;
+        (destruct (vrel_kind _ _ _ _ _ HMS2 Hm2) as (w & Hw & _); exists w; split; [exact Hw|];
+         assert (Hi : is_intv w = true) by (eapply int_shaped_cell; [exact H8 | exact Eb | exact Hw]);
+         destruct w; try discriminate Hi; exact I). }
+  rewrite (nil_cmp_mapped op _ _ _ c1 a1 c2 a2 HMS2 Hm1' Hm2 Hnil) in He.
   destruct (get_int st2 c1) as [z1|] eqn:G1.
   - destruct (get_int st2 c2) as [z2|] eqn:G2.
     + pose proof (MS_payload_int _ _ _ _ _ _ HMS2 Hm1' G1) as P1.
@@ -896,6 +913,22 @@ Proof.
   apply Hall. eapply nth_error_In; eauto.
 Qed.
 
+(* the field cells of the records are int cells *)
+Lemma field_cell_int : forall k env st a rn fld c1 st1 m1 h1,
+  eval genv k env st (EField a rn fld) = (ROk c1, st1) -> MS m1 st1 h1 -> In c1 (mi m1).
+Proof.
+  intros k env st a rn fld c1 st1 m1 h1 He HMS1.
+  destruct k as [|k]; [rewrite eval_O in He; discriminate|].
+  rewrite eval_EField in He.
+  destruct (eval genv k env st a) as [[ca|?| |] sta]; try (inversion He; fail).
+  unfold field_result in He.
+  destruct (get_cell sta ca) as [[?|?|? ?|?|[rr|]]|]; try (inversion He; fail).
+  destruct (nth_error (recs sta) rr) as [flds|] eqn:Er; [|inversion He].
+  destruct (nth_error flds fld) as [c|] eqn:En; inversion He; subst c sta.
+  pose proof (ms_recmi _ _ _ HMS1 rr flds Er) as Hall. rewrite Forall_forall in Hall.
+  apply Hall. eapply nth_error_In; eauto.
+Qed.
+
 Lemma case_EAssign : forall k l rhs, expr_spec k -> expr_case_at (S k) (EAssign l rhs).
 Proof.
   intros k l rhs IH env st r st' He sc HF prog L ce ip stk h o m Hc HMS Hout Hem.
@@ -925,6 +958,13 @@ Proof.
     { cbn [Compile4.in_F]. rewrite Flv, Fa0, Fi. reflexivity. }
     eapply assign_core; eauto.
     intros c1 st1 Ea m1 h1 HMS1 Hext1. right. eapply index_cell_int; eauto.
+  - (* a record field *)
+    apply andb_true_iff in HF; destruct HF as [HF Fb].
+    apply andb_true_iff in HF; destruct HF as [HF Fsh].
+    apply andb_true_iff in HF; destruct HF as [Flv Fa0].
+    eapply assign_core; [exact IH | exact He | cbn [Compile4.in_F]; rewrite Flv, Fa0; reflexivity | exact Fsh | exact Fb
+                        | exact Hc | exact HMS | exact Hout | exact Hem |].
+    intros c1 st1 Ea m1 h1 HMS1 Hext1. right. eapply field_cell_int; eauto.
 Qed.
 
 (* ---- one-dimensional int arrays (level 7) ------------------------------------------------------- *)
@@ -1000,6 +1040,94 @@ Proof.
     apply (post_ok_intro _ _ _ _ _ _ (mkst (S (ip + length ca + length cb)) (ae :: stk) h2 (out st')) m2 ae); simpl; auto.
     + eapply star_snoc; [exact Hst | exact Hstep].
     + rewrite !app_length. simpl. lia.
+Qed.
+
+(* ---- records (level 8) ---------------------------------------------------------------------------- *)
+
+Lemma step_vderef : forall prog ip stk h o ar l k a,
+  nth_error prog ip = Some (ins BYTECODE_VECREF_VEC_DEREF 0 (Z.of_nat k)) ->
+  nth_error h ar = Some (HVec l) -> nth_error l k = Some a ->
+  step prog (mkst ip (ar :: stk) h o) = SNext (mkst (S ip) (a :: ar :: stk) h o).
+Proof.
+  intros prog ip stk h o ar l k a H H0 H1. unfold ValueVM4.step. simpl v_ip. rewrite H.
+  cbn [r_op ins r_w0 r_w1 v_stk v_heap ValueVM4.mkst]. rewrite (zn_nonneg 0), (zn_nonneg (Z.of_nat k)) by lia.
+  change (Z.to_nat 0) with 0%nat. rewrite Nat2Z.id, H0, H1. reflexivity.
+Qed.
+
+Lemma step_nilrec : forall prog ip stk h o,
+  nth_error prog ip = Some (ins0 BYTECODE_NIL_RECORD_REF) ->
+  step prog (mkst ip stk h o) = SNext (mkst (S ip) (length h :: stk) (h ++ [HNil]) o).
+Proof. intros prog ip stk h o H. unfold ValueVM4.step. simpl. rewrite H. reflexivity. Qed.
+
+(* the nil record: NIL_RECORD_REF makes a new reference to nil; the evaluator a new cell CRec None *)
+Lemma case_ERecNil : forall k rn, expr_case_at (S k) (ERecNil rn).
+Proof.
+  intros k rn env st r st' He sc HF prog L ce ip stk h o m Hc HMS Hout Hem.
+  rewrite eval_ERecNil in He. cbn [Compile4.in_F] in HF.
+  change (compile_expr fc L ce (ERecNil rn)) with [ins0 BYTECODE_NIL_RECORD_REF] in *.
+  unfold fresh in He. destruct (alloc st (CRec None)) as [c st1] eqn:Ea. inv He. simpl.
+  assert (Hrc : rcn = false -> CRec None <> CRec None) by (intros E; unfold rcn in E; rewrite HF in E; discriminate E).
+  assert (Hs : forall fd cenv k0, CRec None = CFun fd cenv -> nth_error (g_all G) k0 = Some (KNamed, fd) ->
+                 lookup (fd_name fd) cenv = Some c) by (intros fd cenv k0 E; discriminate E).
+  destruct (MS_alloc_gen m st h (CRec None) HNil c st' [] HMS I Ea Hs Hrc) as (HMS' & Hm' & Hext' & Hout').
+  cbn [length app] in HMS', Hm', Hext'. rewrite Nat.add_0_r in HMS', Hm', Hext'.
+  eapply (post_ok_intro _ _ _ _ _ _ (mkst (S ip) (length h :: stk) (h ++ [HNil]) (out st)) _ (length h)); simpl;
+    [ | lia | reflexivity | exact Hm' | exact HMS' | exact Hext' | congruence | reflexivity].
+  apply star_one. apply step_nilrec. eapply code_at_head; eauto.
+Qed.
+
+Lemma step_vderef_nil : forall prog ip stk h o ar k,
+  nth_error prog ip = Some (ins BYTECODE_VECREF_VEC_DEREF 0 (Z.of_nat k)) -> nth_error h ar = Some HNil ->
+  step prog (mkst ip (ar :: stk) h o) =
+  SNext (ValueVM4.mkst (hsearch (x_tab X) ip 0) (ar :: stk) h o (set_exc fr ExNil)).
+Proof.
+  intros prog ip stk h o ar k H H0. unfold ValueVM4.step. simpl v_ip. rewrite H.
+  cbn [r_op ins r_w0 r_w1 v_stk v_heap ValueVM4.mkst]. rewrite (zn_nonneg 0), (zn_nonneg (Z.of_nat k)) by lia.
+  change (Z.to_nat 0) with 0%nat. rewrite H0. reflexivity.
+Qed.
+
+(* r.f: the record, VECREF_VEC_DEREF 0 f (the field cell's image above the reference), SLIDE 1 1; on a nil record
+   nil_pointer is dispatched *)
+Lemma case_EField : forall k a rn fld, expr_spec k -> expr_case_at (S k) (EField a rn fld).
+Proof.
+  intros k a rn fld IH env st r st' He sc HF prog L ce ip stk h o m Hc HMS Hout Hem.
+  cbn [Compile4.in_F] in HF. apply andb_true_iff in HF; destruct HF as [_ Fa].
+  rewrite eval_EField in He.
+  change (compile_expr fc L ce (EField a rn fld))
+    with (compile_expr fc L ce a ++ [ins BYTECODE_VECREF_VEC_DEREF 0 (Z.of_nat fld); ins BYTECODE_SLIDE 1 1]) in *.
+  set (ca := compile_expr fc L ce a) in *.
+  destruct (eval genv k env st a) as [r1 st1] eqn:Ea.
+  pose proof (IH a _ _ _ _ Ea sc Fa prog ip L ce (mkst ip stk h o) m
+                (code_at_app_l _ _ _ _ Hc) eq_refl HMS Hout Hem) as Ha. fold ca in Ha.
+  destruct r1 as [c1|ex| |]; simpl in Ha; [| inv He; simpl; exc_here Ha | inv He; exact I | inv He; exact I].
+  destruct Ha as (s1 & m1 & a1 & Hst1 & Hip1 & Hstk1 & Hm1 & HMS1 & Hext1 & Hout1 & Hfr1).
+  destruct s1 as [ip1 stk1 h1 o1 fr1]; simpl in Hip1, Hstk1, HMS1, Hout1, Hfr1; subst ip1 stk1 fr1.
+  pose proof (code_at_app_r _ _ _ _ Hc) as Hc2.
+  pose proof (code_at_head _ _ _ _ Hc2) as HVD.
+  pose proof (code_at_head _ _ _ _ (code_at_tail _ _ _ _ Hc2)) as HSL.
+  unfold field_result in He.
+  destruct (vrel_kind _ _ _ _ _ HMS1 Hm1) as (v1 & Hcv1 & Hk1).
+  unfold get_cell in He. rewrite Hcv1 in He.
+  destruct v1 as [?|?|? ?|[?|]|[rr|]]; try contradiction; try (inv He; exact I).
+  2:{ (* a nil record: nil_pointer *)
+      inv He. simpl. split; [reflexivity|].
+      pose proof (vrel_nil _ _ _ _ _ HMS1 Hm1 Hcv1) as Hnl.
+      exists (ValueVM4.mkst (hsearch (x_tab X) (ip + length ca) 0) (a1 :: stk) h1 (out st') (set_exc fr ExNil)),
+             (ip + length ca)%nat, m1, (r_fp fr).
+      split; [eapply star_snoc; [exact Hst1 | apply (step_vderef_nil prog (ip + length ca) stk h1 (out st') a1 fld HVD Hnl)]|].
+      split; [rewrite app_length; simpl; lia|]. split; [reflexivity|].
+      split; [simpl; rewrite set_fp_same; reflexivity|]. split; [reflexivity|].
+      split; [exists a1, []; reflexivity|]. split; [reflexivity|]. split; [exact HMS1 | exact Hext1]. }
+  destruct (vrel_rec _ _ _ _ _ _ HMS1 Hm1 Hcv1) as (l & Hhl & Hrec).
+  destruct (ms_rec _ _ _ HMS1 rr l Hrec) as (flds & Hfl & HFfl). rewrite Hfl in He.
+  destruct (nth_error flds fld) as [c|] eqn:En; [|inv He; exact I].
+  inv He. simpl.
+  destruct (Forall2_nth_l _ _ _ _ _ HFfl En) as (af & Haf & Hvaf).
+  apply (post_ok_intro _ _ _ _ _ _ (mkst (S (S (ip + length ca))) (af :: stk) h1 (out st')) m1 af); simpl; auto.
+  - eapply star_trans; [exact Hst1|].
+    eapply star_step; [apply (step_vderef prog (ip + length ca) stk h1 (out st') a1 l fld af HVD Hhl Haf)|].
+    apply star_one. apply (step_slide_block prog (S (ip + length ca)) af [a1] stk h1 (out st') 1 HSL); [lia | reflexivity].
+  - rewrite app_length. simpl. lia.
 Qed.
 
 Lemma items_F1_let : forall sc x e t, items_F (fc_self fc) lv sc (ILet x e :: t) =
@@ -1399,11 +1527,11 @@ Proof.
   assert (Hlen := ms_len _ _ _ HMS).
   (* the extended environment, for any recorded vectors and copies *)
   assert (Hem' : forall nv nf ncp, CompileCorrect4Rel.env_match G IV fc (r_gp fr) gl
-                   {| mm := mm m ++ map MA (seq (length h) kk); mv := mv m ++ nv; mf := mf m ++ nf; mc := mc m ++ ncp; mi := mi m; mar := mar m |} e' ce'
+                   {| mm := mm m ++ map MA (seq (length h) kk); mv := mv m ++ nv; mf := mf m ++ nf; mc := mc m ++ ncp; mi := mi m; mar := mar m; mrc := mrc m |} e' ce'
                    (map fd_name fds ++ sc) L' Sk).
   { intros nv nf ncp. apply (env_match_run G IV fc (r_gp fr) gl m env ce sc L stk fds st h nv nf ncp Hem Hnd Hnew Hlen). }
   (* what every function of the run captures *)
-  set (m0 := {| mm := mm m ++ map MA (seq (length h) kk); mv := mv m ++ []; mf := mf m ++ []; mc := mc m ++ []; mi := mi m; mar := mar m |}).
+  set (m0 := {| mm := mm m ++ map MA (seq (length h) kk); mv := mv m ++ []; mf := mf m ++ []; mc := mc m ++ []; mi := mi m; mar := mar m; mrc := mrc m |}).
   assert (Hfv' : forall f, In f fds ->
             forallb (fun y => mem_id y (map fd_name fds ++ sc) || (cp && self_is (fc_self fc) y)) (fvs_fd TL f) = true).
   { intros f Hf. rewrite forallb_forall in Hfv. specialize (Hfv f Hf). apply andb_true_iff in Hfv. exact (proj2 Hfv). }
@@ -1429,7 +1557,7 @@ Proof.
   set (ncp := cps_of TL fc cf ce' (length h + kk) fds).
   set (nv := combine vs addrss).
   set (nf := combine (seq (length (cells st)) kk) (map (fun f => (f, e')) fds)).
-  set (m' := {| mm := mm m ++ map MA (seq (length h) kk); mv := mv m ++ nv; mf := mf m ++ nf; mc := mc m ++ ncp; mi := mi m; mar := mar m |}).
+  set (m' := {| mm := mm m ++ map MA (seq (length h) kk); mv := mv m ++ nv; mf := mf m ++ nf; mc := mc m ++ ncp; mi := mi m; mar := mar m; mrc := mrc m |}).
   assert (Hext : ext m m') by ext_solve.
   assert (Hext0' : ext m0 m').
   { unfold ext, m0, m'. cbn [mm mv mf mc mi]. rewrite !app_nil_r. repeat split; first [exists []; now rewrite app_nil_r | eexists; reflexivity]. }
@@ -1629,10 +1757,14 @@ Proof.
   - apply (ms_arr _ _ _ HMS).
   - apply (ms_arrmi _ _ _ HMS).
   - apply (ms_noarr _ _ _ HMS).
+  - apply (ms_rec _ _ _ HMS).
+  - apply (ms_recmi _ _ _ HMS).
+  - apply (ms_norec _ _ _ HMS).
+  - apply (ms_nonil _ _ _ HMS).
 Qed.
 
 Lemma MS_print : forall m st h z, MS m st h -> MS m (print_num st z) h.
-Proof. intros m st h z HMS. constructor; [apply (ms_len _ _ _ HMS) | apply (ms_rel _ _ _ HMS) | apply (ms_inj _ _ _ HMS) | apply (ms_fun _ _ _ HMS) | apply (ms_vec _ _ _ HMS) | apply (ms_fcl _ _ _ HMS) | apply (ms_fself _ _ _ HMS) | apply (ms_cp _ _ _ HMS) | apply (ms_nocp _ _ _ HMS) | apply (ms_int _ _ _ HMS) | apply (ms_arr _ _ _ HMS) | apply (ms_arrmi _ _ _ HMS) | apply (ms_noarr _ _ _ HMS)]. Qed.
+Proof. intros m st h z HMS. constructor; [apply (ms_len _ _ _ HMS) | apply (ms_rel _ _ _ HMS) | apply (ms_inj _ _ _ HMS) | apply (ms_fun _ _ _ HMS) | apply (ms_vec _ _ _ HMS) | apply (ms_fcl _ _ _ HMS) | apply (ms_fself _ _ _ HMS) | apply (ms_cp _ _ _ HMS) | apply (ms_nocp _ _ _ HMS) | apply (ms_int _ _ _ HMS) | apply (ms_arr _ _ _ HMS) | apply (ms_arrmi _ _ _ HMS) | apply (ms_noarr _ _ _ HMS) | apply (ms_rec _ _ _ HMS) | apply (ms_recmi _ _ _ HMS) | apply (ms_norec _ _ _ HMS) | apply (ms_nonil _ _ _ HMS)]. Qed.
 
 
 (* a run that ends where it started (same stack, extended morphism) can be put in front *)
@@ -1684,7 +1816,7 @@ Proof. intros. unfold print_code. simpl. rewrite app_length. simpl. lia. Qed.
 Lemma case_EAnd : forall k a b, expr_spec k -> expr_case_at (S k) (EBin And a b).
 Proof.
   intros k a b IH env st r st' He sc HF prog L ce ip stk h o m Hc HMS Hout Hem.
-  simpl in HF.
+  simpl in HF. apply andb_true_iff in HF; destruct HF as [_ HF].
   apply andb_true_iff in HF; destruct HF as [HF Fb].
   apply andb_true_iff in HF; destruct HF as [_ Fa].
   rewrite eval_EAnd in He.
@@ -1758,7 +1890,7 @@ Qed.
 Lemma case_EOr : forall k a b, expr_spec k -> expr_case_at (S k) (EBin Or a b).
 Proof.
   intros k a b IH env st r st' He sc HF prog L ce ip stk h o m Hc HMS Hout Hem.
-  simpl in HF.
+  simpl in HF. apply andb_true_iff in HF; destruct HF as [_ HF].
   apply andb_true_iff in HF; destruct HF as [HF Fb].
   apply andb_true_iff in HF; destruct HF as [_ Fa].
   rewrite eval_EOr in He.
@@ -2502,12 +2634,12 @@ Proof.
   unfold new_arr in He. cbn [snd new_arr] in HMSa.
   set (st2 := {| cells := cells st1; arrs := arrs st1 ++ [cs]; recs := recs st1; out := out st1 |}) in *.
   set (ar := length (arrs st1)) in *.
-  set (ma := {| mm := mm m1; mv := mv m1; mf := mf m1; mc := mc m1; mi := mi m1; mar := mar m1 ++ [(ar, astk)] |}) in *.
+  set (ma := {| mm := mm m1; mv := mv m1; mf := mf m1; mc := mc m1; mi := mi m1; mar := mar m1 ++ [(ar, astk)]; mrc := mrc m1 |}) in *.
   unfold fresh in He. destruct (alloc st2 (CArr (Some ar))) as [c st3] eqn:Ea. inv He. simpl.
   set (n := Z.of_nat (length es)) in *.
   assert (Hs : forall fd cenv k0, CArr (Some ar) = CFun fd cenv -> nth_error (g_all G) k0 = Some (KNamed, fd) ->
                  lookup (fd_name fd) cenv = Some c) by (intros fd cenv k0 E; discriminate E).
-  destruct (MS_alloc_gen ma st2 h1 (CArr (Some ar)) (HVec astk) c st' [HInt n] HMSa Hina Ea Hs) as (HMS' & Hm' & Hext' & Hout').
+  destruct (MS_alloc_gen ma st2 h1 (CArr (Some ar)) (HVec astk) c st' [HInt n] HMSa Hina Ea Hs (fun _ E => ltac:(discriminate E))) as (HMS' & Hm' & Hext' & Hout').
   cbn [length] in HMS', Hm', Hext'.
   eapply (post_ok_intro _ _ _ _ _ _ (mk (S (S (ip + length ca))) ((length h1 + 1)%nat :: stk) (h1 ++ [HInt n] ++ [HVec astk]) (out st1) fr)
            _ (length h1 + 1)%nat); cbn [v_ip v_stk v_heap v_out v_fr ValueVM4.mkst].
@@ -2517,6 +2649,66 @@ Proof.
     rewrite (step_mkarr fr prog (S (ip + length ca)) (length h1) astk stk (h1 ++ [HInt n]) (out st1) HMK).
     + rewrite app_length, <- app_assoc. reflexivity.
     + unfold hint. rewrite nth_error_app2, Nat.sub_diag by lia. cbn [nth_error]. unfold n. rewrite Hlen1. reflexivity.
+  - rewrite app_length. cbn [length]. lia.
+  - reflexivity.
+  - exact Hm'.
+  - exact HMS'.
+  - eapply ext_trans; [exact Hext1|]. eapply ext_trans; [exact Hexta | exact Hext'].
+  - rewrite Hout'. reflexivity.
+  - reflexivity.
+Qed.
+
+Lemma step_record : forall fr prog ip top stk h o,
+  nth_error prog ip = Some (ins BYTECODE_RECORD (Z.of_nat (length top)) 0) ->
+  step prog (mk ip (top ++ stk) h o fr) = SNext (mk (S ip) (length h :: stk) (h ++ [HVec top]) o fr).
+Proof.
+  intros fr prog ip top stk h o H. unfold ValueVM4.step. simpl. rewrite H. simpl.
+  rewrite zn_nonneg by lia. rewrite Nat2Z.id, app_length.
+  replace (Nat.leb (length top) (length top + length stk)) with true by (symmetry; apply Nat.leb_le; lia).
+  rewrite skipn_app, skipn_all, Nat.sub_diag, firstn_app, firstn_all, Nat.sub_diag. simpl.
+  rewrite app_nil_r. reflexivity.
+Qed.
+
+(* R(e1, …, en): the fields last to first, RECORD n: one new vector of the field cells' images *)
+Lemma case_ERecNew : forall fr k rn es, expr_spec fc gl k -> expr_case_at fr fc gl (S k) (ERecNew rn es).
+Proof.
+  intros fr k rn es IH env st r st' He sc HF prog L ce ip stk h o m Hc HMS Hout Hem.
+  cbn [Compile4.in_F] in HF.
+  apply andb_true_iff in HF; destruct HF as [HF Fall]. apply andb_true_iff in HF; destruct HF as [Flv Fsh].
+  assert (Fargs : args_F FS TL (g_all G) (fc_self fc) lv sc es = true).
+  { clear -Fall. induction es as [|a t0 IHes]; [reflexivity|]. cbn [args_F].
+    apply andb_true_iff in Fall. destruct Fall as [A B]. rewrite A. simpl. apply IHes. exact B. }
+  assert (Hcp : cp = true) by (unfold cp; apply Nat.leb_le in Flv; apply Nat.leb_le; lia).
+  rewrite eval_ERecNew in He.
+  change (compile_expr fc L ce (ERecNew rn es))
+    with (compile_args ce L es ++ [ins BYTECODE_RECORD (Z.of_nat (length es)) 0]) in *.
+  set (ca := compile_args ce L es) in *.
+  destruct (eval_args genv k env es st) as [[ocs ra] st1] eqn:Eargs.
+  pose proof (elems_spec_of k IH es env st ocs ra st1 Eargs sc Fargs Fsh prog ip L ce (mk ip stk h o fr) m
+                (code_at_app_l _ _ _ _ Hc) eq_refl HMS Hout Hem) as Ha.
+  fold ca in Ha.
+  destruct ocs as [cs|].
+  2:{ inv He. destruct r as [c|ex| |]; simpl; auto.
+      { exfalso. eapply eval_args_none_not_ok; eauto. }
+      destruct Ha as [_ Hr]. split; [reflexivity|].
+      eapply raises_weaken; [exact Hr | lia | rewrite app_length; simpl; lia]. }
+  destruct Ha as (s1 & m1 & astk & Hst1 & Hip1 & Hstk1 & Hlen1 & HF1 & Hmi1 & HMS1 & Hext1 & Hout1 & Hfr1).
+  destruct s1 as [ip1 stk1 h1 o1 fr1]; simpl in Hip1, Hstk1, HMS1, Hout1, Hfr1; subst ip1 stk1 fr1.
+  pose proof (code_at_head _ _ _ _ (code_at_app_r _ _ _ _ Hc)) as HRC.
+  destruct (MS_newrec m1 st1 h1 cs astk HMS1 Hcp HF1 Hmi1) as (HMSa & Hexta & Hina).
+  unfold new_rec in He. cbn [snd new_rec] in HMSa.
+  set (st2 := {| cells := cells st1; arrs := arrs st1; recs := recs st1 ++ [cs]; out := out st1 |}) in *.
+  set (rr := length (recs st1)) in *.
+  set (ma := {| mm := mm m1; mv := mv m1; mf := mf m1; mc := mc m1; mi := mi m1; mar := mar m1; mrc := mrc m1 ++ [(rr, astk)] |}) in *.
+  unfold fresh in He. destruct (alloc st2 (CRec (Some rr))) as [c st3] eqn:Ea. inv He. simpl.
+  assert (Hs : forall fd cenv k0, CRec (Some rr) = CFun fd cenv -> nth_error (g_all G) k0 = Some (KNamed, fd) ->
+                 lookup (fd_name fd) cenv = Some c) by (intros fd cenv k0 E; discriminate E).
+  destruct (MS_alloc_gen ma st2 h1 (CRec (Some rr)) (HVec astk) c st' [] HMSa Hina Ea Hs (fun _ E => ltac:(discriminate E))) as (HMS' & Hm' & Hext' & Hout').
+  cbn [length app] in HMS', Hm', Hext'. rewrite Nat.add_0_r in HMS', Hm', Hext'.
+  eapply (post_ok_intro _ _ _ _ _ _ (mk (S (ip + length ca)) (length h1 :: stk) (h1 ++ [HVec astk]) (out st1) fr)
+           _ (length h1)); cbn [v_ip v_stk v_heap v_out v_fr ValueVM4.mkst].
+  - eapply star_trans; [exact Hst1|]. apply star_one.
+    apply (step_record fr prog (ip + length ca) astk stk h1 (out st1)). rewrite Hlen1. exact HRC.
   - rewrite app_length. cbn [length]. lia.
   - reflexivity.
   - exact Hm'.
@@ -4318,6 +4510,9 @@ Proof.
   - apply case_ELambda.
   - apply case_EArrLit; assumption.
   - apply case_EIndex; assumption.
+  - apply case_ERecNew; assumption.
+  - apply case_ERecNil.
+  - apply case_EField; assumption.
   - apply case_EPrint; assumption.
 Qed.
 
